@@ -301,7 +301,7 @@ pub fn f_parsed(c: &PesParsedContents<'_>, rest: &[u8]) -> String {
         fb(c.original_or_copy() == OriginalOrCopy::Original),
         f_ptsdts(&c.pts_dts()),
         f_pes_res(c.escr(), f_cref),
-        f_pes_res(c.es_rate(), |r| format!("{}", u32::from(r))),
+        f_pes_res(c.es_rate(), |r| { let bps = r.bytes_per_second(); format!("{}.{}", u32::from(r), bps) }),
         f_pes_res(c.dsm_trick_mode(), f_trick),
         f_pes_res(c.additional_copy_info(), |v| format!("{}", v)),
         f_pes_res(c.previous_pes_packet_crc(), |v| format!("{}", v)),
@@ -492,7 +492,8 @@ fn f_desc_item(r: Result<CoreDescriptors<'_>, DescriptorError>, raw: &[u8]) -> S
                         .map(|x| match x {
                             Ok(lang) => {
                                 let code = lang.code();
-                                let cb: Vec<u8> = code.chars().map(|c| c as u32 as u8).collect();
+                                // every code point in full (latin1: byte b decodes to U+00b)
+                                let cp: Vec<String> = code.chars().map(|c| format!("{:04x}", c as u32)).collect();
                                 let at = match lang.audio_type() {
                                     AudioType::Undefined => 0,
                                     AudioType::CleanEffects => 1,
@@ -500,7 +501,7 @@ fn f_desc_item(r: Result<CoreDescriptors<'_>, DescriptorError>, raw: &[u8]) -> S
                                     AudioType::VisualImpairedCommentary => 3,
                                     AudioType::Reserved(v) => v,
                                 };
-                                format!("{}.{}", hex(&cb), at)
+                                format!("{}.{}", cp.join(""), at)
                             }
                             Err(mpeg2ts_reader::descriptor::iso_639_language::LangError::TooShort { actual }) => {
                                 format!("short.{}", actual)
